@@ -369,6 +369,81 @@ func c19GenMerge(r *Rng) c19Scn {
 	return c19Scn{MaxC: Pick(r, []int{1, 2, 3, 3}), Steps: steps}
 }
 
+// c19GenTwoKeys: several workers on DIFFERENT used resources (what marker_while_ready_key_serial
+// covers): Usage u0 of r0 is ready and deleted; Usage u1 of another resource (another name, kind
+// or group; by reference or by selector) is created; the deletion reconcile of u0 and the
+// reconcile of u1 are merged at random, call by call, some calls failing, with other writers'
+// edits and delete requests in between; then u1 is deleted and a Usage u2 of r0 created and both
+// reconciled, again merged. No two in-flight reconciles ever hold Usages of the same resource, so
+// nothing - not even the known two-worker race D16 - may be reported.
+func c19GenTwoKeys(r *Rng) c19Scn {
+	r0 := c19ResID{"ex.org/v1", "Thing", "r0"}
+	r1 := Pick(r, []c19ResID{{"ex.org/v1", "Thing", "r1"}, {"ex.org/v1", "Thing", "r0.x"}, {"ex.org/v1", "Other", "r0"}, {"other.io/v1", "Thing", "r0"}})
+	of0 := &c19RSpec{AV: Pick(r, c19Versions(r0.AV)), Kind: r0.Kind, Name: r0.Name}
+	of1 := &c19RSpec{AV: Pick(r, c19Versions(r1.AV)), Kind: r1.Kind, Name: r1.Name}
+	if r.Chance(1, 3) {
+		of1.Name = ""
+		of1.Sel = &c19Sel{Labels: map[string]string{"app": "web"}}
+	}
+	steps := []c19Step{
+		{Op: "cr", AV: r0.AV, Kind: r0.Kind, Name: r0.Name, Labels: map[string]string{"app": "db"}},
+		{Op: "cr", AV: r1.AV, Kind: r1.Kind, Name: r1.Name, Labels: map[string]string{"app": "web"}, InUse: r.Chance(1, 4)},
+		{Op: "cu", Name: "u0", Of: of0, Reason: "a"},
+		{Op: "run", U: "u0"},
+		{Op: "du", Name: "u0"},
+	}
+	outcome := func() string {
+		if r.Chance(1, 8) {
+			return Pick(r, []string{"fail", "conflict", "crashAfter"})
+		}
+		return "ok"
+	}
+	reconcile := func(u string, n int) []c19Step {
+		out := []c19Step{{Op: "start", U: u}}
+		for i := 0; i < n; i++ {
+			out = append(out, c19Step{Op: "step", U: u, O: outcome()})
+		}
+		return append(out, c19Step{Op: "run", U: u})
+	}
+	merge := func(streams ...[]c19Step) {
+		for {
+			var alive []int
+			for i, s := range streams {
+				if len(s) > 0 {
+					alive = append(alive, i)
+				}
+			}
+			if len(alive) == 0 {
+				return
+			}
+			i := Pick(r, alive)
+			n := 1
+			if r.Chance(1, 3) {
+				n = r.Range(1, 5)
+			}
+			for ; n > 0 && len(streams[i]) > 0; n-- {
+				steps = append(steps, streams[i][0])
+				streams[i] = streams[i][1:]
+			}
+			if r.Chance(1, 10) {
+				x := Pick(r, []c19ResID{r0, r1})
+				if r.Bool() {
+					steps = append(steps, c19Step{Op: "er", AV: x.AV, Kind: x.Kind, Name: x.Name, Labels: map[string]string{"rev": fmt.Sprint(r.Intn(3))}})
+				} else {
+					steps = append(steps, c19Step{Op: "dr", AV: Pick(r, c19Versions(x.AV)), Kind: x.Kind, Name: x.Name, Policy: Pick(r, []string{"", "Orphan"})})
+				}
+			}
+		}
+	}
+	merge(reconcile("u0", 6), append([]c19Step{{Op: "cu", Name: "u1", Of: of1, Reason: "b"}}, reconcile("u1", 8)...))
+	steps = append(steps, c19Step{Op: "dr", AV: r1.AV, Kind: r1.Kind, Name: r1.Name}, c19Step{Op: "dr", AV: r0.AV, Kind: r0.Kind, Name: r0.Name})
+	// second round, roles swapped: u1 (of r1) is deleted while u2 (of r0) appears
+	steps = append(steps, c19Step{Op: "cr", AV: r0.AV, Kind: r0.Kind, Name: r0.Name, Labels: map[string]string{"app": "db"}}, c19Step{Op: "du", Name: "u1"})
+	merge(reconcile("u1", 6), append([]c19Step{{Op: "cu", Name: "u2", Of: of0, Reason: "c"}}, reconcile("u2", 8)...))
+	steps = append(steps, c19Step{Op: "dr", AV: r0.AV, Kind: r0.Kind, Name: r0.Name, Policy: "Foreground"}, c19Step{Op: "dr", AV: r1.AV, Kind: r1.Kind, Name: r1.Name})
+	return c19Scn{MaxC: Pick(r, []int{2, 2, 3}), Steps: steps}
+}
+
 // c19GenFaultSweep: one reconcile (add path or delete path) with a fault at call k.
 func c19GenFaultSweep(r *Rng) c19Scn {
 	used := c19ResID{"ex.org/v1", "Thing", "r0"}
@@ -534,6 +609,75 @@ func c19GenOwner(r *Rng) c19Scn {
 	steps = append(steps, gcU, c19Step{Op: "run", U: "u0"}, drUsed())
 	// the user goes away for good: the used resource is released
 	steps = append(steps, replace[0], gcU, c19Step{Op: "run", U: "u0"}, drUsed())
+	return c19Scn{MaxC: Pick(r, []int{1, 1, 2}), Steps: steps}
+}
+
+// c19GenTeardown: a composed Usage (label crossplane.io/composite; with or without the XR's
+// controller reference as first owner) of r0 by r1 whose using resource r1 was replaced under the
+// same name 0-2 times, each replacement followed by a poll - so that the Usage carries SEVERAL
+// owner references with r1's apiVersion/kind/name and differing uids, the stale ones first:
+// [XR, r1(old uid), r1(new uid)] - is deleted (as when its XR is deleted) while r1 still exists.
+// The deletion branch must WAIT for r1, whatever the owner references say: reconciles (whole, or
+// call by call with faults), GC visits, composer re-applies, delete requests for the used
+// resource and further replacements of r1 in random order; only when r1 is gone for good does the
+// reconcile release the used resource.
+func c19GenTeardown(r *Rng) c19Scn {
+	variant := Pick(r, []int{0, 1, 1})
+	byAV := "ex.org/v1"
+	if r.Chance(1, 4) {
+		byAV = Pick(r, c19Versions("ex.org/v1"))
+	}
+	prefix, replace, used, _ := c19OwnerParts(variant, byAV, r.Chance(1, 4), Pick(r, c19Versions("ex.org/v1")))
+	steps := append([]c19Step{}, prefix...)
+	for i := range steps {
+		if steps[i].Op == "cu" {
+			steps[i].Composed = true
+		}
+	}
+	gcU := c19Step{Op: "gc", Kind: v1beta1.UsageKind, Name: "u0"}
+	run := c19Step{Op: "run", U: "u0"}
+	drUsed := func() c19Step {
+		return c19Step{Op: "dr", AV: Pick(r, c19Versions(used.AV)), Kind: used.Kind, Name: used.Name, Policy: Pick(r, []string{"", "Foreground", "Orphan"})}
+	}
+	xa := c19Step{Op: "xa", Name: "u0", Ctrl: "x0", AV: Pick(r, c19UsageVersions)}
+	for i, n := 0, r.Intn(3); i < n; i++ {
+		steps = append(steps, replace...)
+		steps = append(steps, run)
+		if variant == 1 && r.Bool() {
+			steps = append(steps, xa)
+		}
+		if r.Chance(1, 3) {
+			steps = append(steps, gcU) // prunes nothing: the GC model (and simstore's) keeps dangling references of an owned object
+		}
+	}
+	// the Usage is deleted (its XR is being deleted) while its using resource exists
+	steps = append(steps, c19Step{Op: "du", Name: "u0"})
+	mid := []c19Step{run, run, drUsed(), gcU}
+	if variant == 1 {
+		mid = append(mid, xa)
+	}
+	if r.Bool() {
+		// the using resource is replaced once more, now under the deleting Usage
+		mid = append(mid, replace...)
+	}
+	if r.Bool() {
+		// a deletion reconcile call by call, one call failing
+		k := r.Intn(3)
+		mid = append(mid, c19Step{Op: "start", U: "u0"})
+		for i := 0; i < 3; i++ {
+			o := "ok"
+			if i == k {
+				o = Pick(r, []string{"ok", "fail", "conflict", "crashAfter"})
+			}
+			mid = append(mid, c19Step{Op: "step", U: "u0", O: o})
+		}
+	}
+	for _, i := range r.Perm(len(mid)) {
+		steps = append(steps, mid[i])
+	}
+	steps = append(steps, run, drUsed())
+	// the using resource goes away for good: the used resource is released
+	steps = append(steps, replace[0], run, run, drUsed())
 	return c19Scn{MaxC: Pick(r, []int{1, 1, 2}), Steps: steps}
 }
 
@@ -979,6 +1123,17 @@ func c19Exhaustive(emit func(c19Scn, string)) {
 			emit(c19Scn{MaxC: maxc, Steps: steps}, "xmrg")
 		})
 	}
+	// x2ks: the same two reconciles with u1 naming ANOTHER resource (the look-alike r0.x): all
+	// 3003 interleavings with two workers; nothing may be reported (marker_while_ready_key_serial)
+	other := c19ResID{"ex.org/v1", "Thing", "r0.x"}
+	b2 := append([]c19Step{}, b...)
+	b2[0] = c19Step{Op: "cu", Name: "u1", Of: &c19RSpec{AV: "ex.org/v1beta1", Kind: other.Kind, Name: other.Name}, Reason: "b"}
+	prefix2 := append([]c19Step{{Op: "cr", AV: other.AV, Kind: other.Kind, Name: other.Name, Labels: map[string]string{"app": "db"}, InUse: true}}, prefix...)
+	suffix2 := append(append([]c19Step{}, suffix...), c19Step{Op: "dr", AV: other.AV, Kind: other.Kind, Name: other.Name})
+	c19AllMerges(a, b2, func(m []c19Step) {
+		steps := append(append(append([]c19Step{}, prefix2...), m...), suffix2...)
+		emit(c19Scn{MaxC: 2, Steps: steps}, "x2ks")
+	})
 	using := c19ResID{"ex.org/v1", "Other", "r1"}
 	for _, sel := range []bool{false, true} {
 		for _, del := range []bool{false, true} {
@@ -1225,7 +1380,11 @@ func init() {
 			r := c.Rng.Fork()
 			var s c19Scn
 			fam := "rnd"
-			switch w := r.Intn(18); {
+			switch w := r.Intn(22); {
+			case w >= 20:
+				s, fam = c19GenTwoKeys(r), "2ks"
+			case w >= 18:
+				s, fam = c19GenTeardown(r), "tdn"
 			case w < 5:
 				s = c19GenRandom(r)
 			case w < 8:
